@@ -3,6 +3,12 @@
 import json, subprocess, collections
 
 CLAIMS = {
+ "C14": dict(
+   text="Static rules joining go/ssa value flow with the compiler's own escape-analysis report: every parameter whose bytes reach the unsafe ingest into component storage must be reported as leaking (this is the check that found the dangling-stack-pointer defect); every call of the raw byte-copy primitive is classified by operand provenance, and a raw copy touching a component column needs a dominating pointer-freeness test (reports the missing write barrier, listed as a known finding); shrinking zeroes vacated rows; column storage is typed, retained reflect memory and the cached raw pointers are derived from it. GC schedules cannot be enumerated by tests; these are the code-shape conditions under which no schedule can go wrong.",
+   note="The compiler's verdict (go build -gcflags=-m, no program is run) is trusted, for the toolchain used. The four raw copies of component columns without write barrier are a genuine, unrepaired defect: known finding H2 in known_findings.json (reproducer repro/gcbarrier). Does not explore GC schedules.",
+   technique="static analysis: value-flow to ingest points joined with the compiler's escape report; provenance classification of raw copies; typed-buffer shape rules",
+   ref="§2 C14"),
+
  "C18": dict(
    text="For every arity 0-12 and every position, on the typed AST and SSA of the generated code: type parameter j, field idj, compiled.Ids[j] and the j-th pointer argument are paired consistently at every cast, literal and Component pair (the unsafe casts hide any mix-up from the compiler), the method sets of the arities are identical modulo per-position lines, every configuration change of a filter invalidates its compilation and refuses registered filters, filters compile before use, Compile publishes only sub-filters rebuilt on that path, Exchange keeps builder and relation consistent. About 1300 obligations, all positions of all arities, not the sampled ones a test touches.",
    note="Decides pairing and invalidation structure, not equality of effects with the ID-based calls. Unknown uses of idk fields are reported as undecided rather than passed. Trusted: go/types, go/ssa; the generator template is covered through its output.",
